@@ -134,4 +134,9 @@ def check(ctx):
                     signature="pressure lookup does not extrapolate", options={k: str(v)[:40] for k, v in (obj.args.items() if isinstance(obj, ExtObj) else []) if k not in ("x", "y")},
                 )
     ctx.floor("C16-g", n_i, 1, "pressure interpolators built by from_table")
+    # ---- C16-h the diffusivity from_table tabulates is alpha_multiphase's (mobility over storage) for the table's own
+    # columns, position by position (the wiring rule of C15-c)
+    from .c15 import check_from_table
+
+    check_from_table(ctx, "C16-h")
     ctx.floor("C16", len(ctx.obligs), 7, "storage / mobility obligations")
